@@ -80,7 +80,7 @@ where
                     *receiving_state = Recver::ResetRcvd(reset_frame);
                 }
                 Recver::SizeKnown(r) => {
-                    r.recv_reset(&reset_frame)?;
+                    sync_fresh_data = r.recv_reset(&reset_frame)?;
                     *receiving_state = Recver::ResetRcvd(reset_frame);
                 }
                 _ => unreachable!(),
